@@ -201,4 +201,60 @@ def Judge.observe (j : Judge) (op : Op) (label : Nat) (impl : List String) : Jud
     | _ => (j, "ok")
   | .state => (j, j.stateVerdict impl)
 
+/-! ### stress runs: real concurrency, judged on the state at quiescence only
+
+`stress s0=<l|c>:<perms> s1=… s2=… open=<owner/p/stream/media/T|U,…|-> final=<n>`:
+the order of the concurrent events is unknown, so only the state-based part of
+the statement is evaluated: no open object of a closed session, every open
+object referred to by its owner and covered by the owner's permissions, at most
+one per session and key, and nothing open once every session has been closed. -/
+
+def parseStressSess (tok : String) : Option (Nat × Bool × Perms) :=
+  match tok.splitOn "=" with
+  | [name, rest] =>
+    match rest.splitOn ":" with
+    | [st, perms] =>
+      match (String.ofList (name.toList.drop 1)).toNat? with
+      | some i => some (i, st == "c",
+          { media := perms.toList.contains 'm', audio := perms.toList.contains 'a',
+            video := perms.toList.contains 'v', screen := perms.toList.contains 's' })
+      | none => none
+    | _ => none
+  | _ => none
+
+def stressVerdict (impl : List String) : String :=
+  match impl with
+  | "stress" :: rest =>
+    let sess := rest.filterMap parseStressSess
+    let openTok := (rest.find? (fun t => t.startsWith "open=")).getD "open=-"
+    let finalTok := (rest.find? (fun t => t.startsWith "final=")).getD "final=?"
+    let body := String.ofList (openTok.toList.drop 5)
+    let seen := if body = "-" then [] else (body.splitOn ",").map (fun t => parseSeen ("0/" ++ t))
+    if sess.length != 3 || seen.any Option.isNone then "violated:unparsable-observation" else
+    let seen := seen.filterMap id
+    let bad := seen.filterMap fun o =>
+      match sess.find? (fun s => s.1 == o.owner) with
+      | none => some "stress-unknown-owner"
+      | some (_, closed, perms) =>
+        if closed then some "stress-open-after-owner-closed"
+        else if !o.tracked then some "stress-open-not-owned"
+        else if !permitted perms o.kind o.media then
+          (match o.kind with
+           | .pub .screen => some "screen-publisher-survives-revocation"
+           | _ => some "stress-open-without-permission")
+        else none
+    match bad with
+    | why :: _ => "violated:" ++ why
+    | [] =>
+      if hasDuplicate seen then "violated:stress-duplicate-object"
+      else if finalTok != "final=0" then "violated:stress-open-after-all-closed"
+      else "ok"
+  | _ => "violated:unparsable-observation"
+
+/-- The assumption about the real Janus client (`Close()` destroys the room and
+detaches the handles, the publisher leaves `mcuJanus.publishers`), as observed
+against the repository's test gateway: one room and two handles are created by
+a publisher and a subscriber, nothing is left after both were closed. -/
+def janusExpected : String := "created=1/2 left=0/0 publishers=0"
+
 end SigModel.Mcu
